@@ -18,7 +18,7 @@ import (
 	"verif/harness/ev"
 )
 
-var rec = ev.New("C11", "real-runtime Fatal path: a re-executed child logs N messages through a diode.Writer (waiter or poller mode, optionally behind a FilteredLevelWriter, MultiLevelWriter, SyncWriter, LevelWriterAdapter, a ConsoleWriter passed by value or a nest of these, also beside a second diode whose destination rejects every message) and then calls Logger.Fatal (the fatal event written, or filtered out by a child logger's level, the global level or a rejecting sampler); also with a wrapped writer so slow that draining takes ~6 s; the parent requires exit status 1 and all N messages plus the fatal message on the child's stdout, in order")
+var rec = ev.New("C11", "real-runtime Fatal path: a re-executed child logs N messages through a diode.Writer (waiter or poller mode, optionally behind a FilteredLevelWriter, MultiLevelWriter, SyncWriter, LevelWriterAdapter, a ConsoleWriter passed by value or a nest of these, also beside a second diode whose destination rejects every message) and then calls Logger.Fatal (the fatal event written, or filtered out by a child logger's level, the global level or a rejecting sampler); also with a wrapped writer so slow that draining takes ~6 s, and with a second Fatal call from another goroutine while the first one drains; the parent requires exit status 1 and all N messages plus the fatal message on the child's stdout, in order")
 
 func TestMain(m *testing.M) {
 	if c := os.Getenv("VERIF_C11_CHILD"); c != "" {
@@ -82,6 +82,15 @@ func child(c string) {
 	case "sampled-out":
 		q := l.Sample(&zerolog.BasicSampler{N: 0})
 		q.Fatal().Msg("fatal")
+	case "two-fatals":
+		// a second Fatal, on another logger that shares the writer, from another goroutine, while the first one
+		// is still draining the ring: whichever of them ends the process, everything logged before is out first
+		go func() {
+			time.Sleep(100 * time.Millisecond)
+			q := l.With().Str("who", "second").Logger()
+			q.Fatal().Msg("fatal2")
+		}()
+		l.Fatal().Msg("fatal")
 	default:
 		l.Fatal().Msg("fatal")
 	}
@@ -138,6 +147,46 @@ func TestFatalDrains(t *testing.T) {
 			ev.SaveReplay("C11-fatal", map[string]interface{}{"mode": "waiter", "wrap": "plain", "n": 130, "slow_ms": 45})
 			fmt.Printf("VERIF-FAIL: Fatal path [slow drain]: exit %d, %d of 131 lines delivered before the process exited\n", r.code, len(lines))
 			t.Errorf("slow drain: exit %d, %d of 131 lines; tail %q", r.code, len(lines), tailStr(r.out))
+		}
+	}()
+	// two Fatal calls overlapping: 60 lines at 20 ms are still draining when the second one comes
+	twoDone := make(chan [2]slowRes, 1)
+	go func() {
+		var r [2]slowRes
+		for i, mode := range []string{"waiter", "poller"} {
+			r[i].code, r[i].out = runChild(t, "60 "+mode+" plain", "VERIF_C11_SLOW_MS=20", "VERIF_C11_FATAL=two-fatals")
+		}
+		twoDone <- r
+	}()
+	defer func() {
+		for i, r := range <-twoDone {
+			mode := []string{"waiter", "poller"}[i]
+			lines := strings.Split(strings.TrimSpace(r.out), "\n")
+			rec.Case([]byte("two fatals "+mode), true, "fatal-path", "two-fatals")
+			bad := ""
+			switch {
+			case r.code != 1:
+				bad = fmt.Sprintf("exit status %d, want 1", r.code)
+			case strings.Contains(r.out, "MISSED"):
+				bad = "messages reported dropped although fewer than the ring size were outstanding"
+			case len(lines) < 61:
+				bad = fmt.Sprintf("%d lines delivered before the process exited, want the 60 pending ones and the first fatal message", len(lines))
+			default:
+				for j := 0; j < 60; j++ {
+					if !strings.Contains(lines[j], fmt.Sprintf(`"i":%d,`, j)) {
+						bad = fmt.Sprintf("line %d is %q", j, lines[j])
+						break
+					}
+				}
+				if bad == "" && !strings.Contains(lines[60], `"message":"fatal"`) {
+					bad = fmt.Sprintf("line 60 is %q, want the first fatal message", lines[60])
+				}
+			}
+			if bad != "" {
+				ev.SaveReplay("C11-fatal", map[string]interface{}{"mode": mode, "wrap": "plain", "n": 60, "slow_ms": 20, "fatal": "two-fatals"})
+				fmt.Printf("VERIF-FAIL: Fatal path [two overlapping Fatal calls, %s]: %s\n", mode, bad)
+				t.Errorf("two fatals (%s): %s; tail %q", mode, bad, tailStr(r.out))
+			}
 		}
 	}()
 	for _, mode := range []string{"waiter", "poller"} {
